@@ -97,6 +97,10 @@ def path(eng, acc, task, focus='C05'):
             qn = [0] * (len(oids) + 1)
         chains.append(OpChain(list(oids), qn, eng.sym(f'c{c}'), s))
     inputs = dict(L=L, chains=[dict(oids=list(ch.oids), qnums=list(ch.qnums), coeff=ch.coeff, istart=ch.istart) for ch in chains])
+    # the zero / non-zero pattern of the coefficients is decided here, independently of whether (and how) the code under
+    # test looks at it (the unchanged code asks exactly these questions, so no extra paths arise)
+    for ch in chains:
+        bool(S(ch.coeff) == 0)
     ref = W.chains_words(chains, L, 0)
     if len({(s, o) for s, o in skel}) < len(skel):
         eng.mark('duplicate_chains')
